@@ -366,9 +366,20 @@ func randFailure(r *rand.Rand, g gcontract, cid int, os bool, unimplemented bool
 	return fmt.Sprintf("%c%d@%s", m, cid, pos)
 }
 
+// okz: contract cid served completely, then the stream ends uncleanly (kind 0 non-OK status, 1 RST, 2 transport
+// error, 3 never finished = the drain times out)
+func okz(cid, kind int) string { return fmt.Sprintf("S%d@z%d", cid, kind) }
+
+// spz: like sp, with an unclean end of stream on both versions
+func spz(cid, kind, point int) gplan {
+	p := sp(cid, point)
+	p.att = [2]string{okz(cid, kind), okz(cid, kind)}
+	return p
+}
+
 func hasTimeout(plans []gplan) bool {
 	for _, p := range plans {
-		if p.att[0][0] == 'T' || p.att[1][0] == 'T' {
+		if p.att[0][0] == 'T' || p.att[1][0] == 'T' || strings.HasSuffix(p.att[0], "@z3") || strings.HasSuffix(p.att[1], "@z3") {
 			return true
 		}
 	}
@@ -437,6 +448,25 @@ func (Area) Gen(r *rand.Rand, tier string, emit func(string)) {
 		// the listing changes from {a.b, c} to {a.bc} over identical files: an update is due
 		emitHist(emit, os, []gcontract{amb, amb2}, []gplan{sp(0, 3), sp(1, 3), sp(0, -1)})
 	}
+	// ---- fault AFTER the last answer: a fully answered poll whose stream does not end with a clean EOF ----------
+	// (the poll succeeded: what it observed must be delivered, and nothing may be remembered that was not delivered)
+	for zk := 0; zk < 4; zk++ {
+		b := baseContract(zk % 4)
+		cs := []gcontract{b, variant(r, b, 0), variant(r, b, 1)}
+		for _, os := range []bool{false, true} {
+			// the FIRST poll ends uncleanly, then clean polls
+			emitHist(emit, os, cs, []gplan{spz(0, zk, 3), sp(0, 3), sp(0, -1)})
+			// a CHANGE is observed by a poll that ends uncleanly, then clean polls of the same contract
+			emitHist(emit, os, cs, []gplan{sp(0, 3), spz(2, zk, 3), sp(2, 3), sp(2, -1)})
+			// unchanged polls ending uncleanly stay silent; a later change is delivered
+			emitHist(emit, os, cs, []gplan{sp(0, 3), spz(1, zk, 3), spz(0, zk, 3), sp(2, -1)})
+		}
+		// unclean end on v1alpha after Unimplemented on v1
+		fb := spz(2, zk, 3)
+		fb.att[0] = "U2@o"
+		emitHist(emit, false, cs, []gplan{sp(0, 3), fb, sp(2, 3), sp(2, -1)})
+	}
+
 	for kind := 0; kind < 4; kind++ {
 		b := baseContract(kind)
 		same := variant(r, b, 0)
@@ -838,6 +868,13 @@ func genHist(r *rand.Rand, emit func(string)) {
 			p.att = [2]string{ok(cur), ok(cur)}
 			p.att[v] = randFailure(r, cs[cur], cur, os, false)
 			count("poll:mixed")
+		}
+		// about one successful attempt in six ends its stream uncleanly AFTER the last answer
+		for v := 0; v < 2; v++ {
+			if p.att[v] == ok(cur) && r.Intn(6) == 0 {
+				p.att[v] = okz(cur, r.Intn(3))
+				count("poll:unclean-end")
+			}
 		}
 		// ResolveNow placements
 		for pt := 0; pt < 5; pt++ {
